@@ -57,28 +57,28 @@ type lcRig struct {
 	st *sim.Stream
 	mu sync.Mutex
 
-	trace    []lcEvent
-	cfgs     []*lcCfg
-	loadSeq  int
-	pending  *lcCfg // config the loader will hand out next
-	head     string // label of the current instance
-	inst     *casket.Instance
-	attempts []*lcAttempt
-	cur      *lcAttempt
-	sigMode  bool
-	sigChans map[os.Signal][]chan<- os.Signal
-	sigLeft  int
-	nINT     int
-	shutSig  int // trace index of the first delivered INT/TERM (-1)
-	exited   bool
-	exitCode int
-	cleanup  bool
-	started  bool
-	opsDone  bool
-	servers  []*fakeServer
-	cbSeq    int
-	waitRet  bool
-	stopped  bool
+	trace     []lcEvent
+	cfgs      []*lcCfg
+	loadSeq   int
+	pending   *lcCfg // config the loader will hand out next
+	head      string // label of the current instance
+	inst      *casket.Instance
+	attempts  []*lcAttempt
+	cur       *lcAttempt
+	sigMode   bool
+	sigChans  map[os.Signal][]chan<- os.Signal
+	sigLeft   int
+	nINT      int
+	shutSig   int // trace index of the first delivered INT/TERM (-1)
+	exited    bool
+	exitCode  int
+	cleanup   bool
+	started   bool
+	opsDone   bool
+	servers   []*fakeServer
+	cbSeq     int
+	waitRet   bool
+	stopped   bool
 	underLock int
 	rush      bool // a signal handler is waiting for the shutdown lock: callbacks under it do not park
 }
@@ -923,7 +923,6 @@ func (r *lcRig) stoppedBefore(idx int) bool {
 	}
 	return false
 }
-
 
 // calledUnderLock reports whether the current call stack passes through the
 // signal-driven shutdown path, which runs callbacks while holding the
